@@ -794,6 +794,13 @@ class Mesh:
         if 'subdomains' in data and data['subdomains'] is not None:
             data['subdomains'] = {k: np.array(v)
                                   for k, v in data['subdomains'].items()}
+        orientations = data.pop('orientations', None)
+        if orientations and data.get('boundaries'):
+            data['boundaries'] = {
+                k: (OrientedBoundary(v, orientations[k])
+                    if k in orientations else v)
+                for k, v in data['boundaries'].items()
+            }
         data['doflocs'] = data.pop('p')
         data['_subdomains'] = data.pop('subdomains')
         data['_boundaries'] = data.pop('boundaries')
@@ -807,11 +814,17 @@ class Mesh:
             boundaries = {k: v.tolist() for k, v in self.boundaries.items()}
         if self.subdomains is not None:
             subdomains = {k: v.tolist() for k, v in self.subdomains.items()}
+        orientations = None
+        if self.boundaries is not None:
+            orientations = {k: v.ori.tolist()
+                            for k, v in self.boundaries.items()
+                            if isinstance(v, OrientedBoundary)}
         return {
             'p': self.p.T.tolist(),
             't': self.t.T.tolist(),
             'boundaries': boundaries,
             'subdomains': subdomains,
+            'orientations': orientations if orientations else None,
         }
 
     @classmethod
@@ -1396,31 +1409,39 @@ class Mesh:
 
         data = np.load(filename)
 
+        boundaries = {
+            key[2:]: (OrientedBoundary(data[key], data['o_' + key[2:]])
+                      if 'o_' + key[2:] in data.files else data[key])
+            for key in data.files
+            if key[:2] == 'b_'
+        }
+        subdomains = {
+            key[2:]: data[key]
+            for key in data.files
+            if key[:2] == 's_'
+        }
         return cls(
             data['doflocs'],
             data['t'],
-            _boundaries={
-                key[2:]: data[key]
-                for key in data.files
-                if key[:2] == 'b_'
-            },
-            _subdomains={
-                key[2:]: data[key]
-                for key in data.files
-                if key[:2] == 's_'
-            },
+            _boundaries=boundaries if boundaries else None,
+            _subdomains=subdomains if subdomains else None,
         )
 
     def save_npz(self, filename: str):
 
         boundaries = {} if self.boundaries is None else self.boundaries
         subdomains = {} if self.subdomains is None else self.subdomains
-        boundaries = {'b_' + key: value for key, value in boundaries.items()}
+        orientations = {'o_' + key: value.ori
+                        for key, value in boundaries.items()
+                        if isinstance(value, OrientedBoundary)}
+        boundaries = {'b_' + key: np.asarray(value)
+                      for key, value in boundaries.items()}
         subdomains = {'s_' + key: value for key, value in subdomains.items()}
         np.savez(
             filename,
             doflocs=self.doflocs,
             t=self.t,
             **boundaries,
+            **orientations,
             **subdomains,
         )
